@@ -291,6 +291,15 @@ func (dm *DMap) checkPutConditions(e *env) error {
 			return err
 		}
 	}
+
+	// The key exists, but it may have expired already. Background eviction removes it
+	// later. An expired key is a missing key for XX.
+	if e.putConfig.HasXX {
+		ttl, err := e.fragment.storage.GetTTL(e.hkey)
+		if err == nil && isKeyExpired(ttl) {
+			return ErrKeyNotFound
+		}
+	}
 	return nil
 }
 
